@@ -119,6 +119,10 @@ class SymEnv:
     def note(self, k, v): self.info[k] = v
     def path(self, name): return "/sxfs/" + name
 
+    def option(self, name, value):
+        from . import npx
+        npx.STATE[name] = value
+
     def real_path(self, name):
         """a path in a real scratch directory (for code that goes through the real `open`)"""
         import tempfile
@@ -254,6 +258,9 @@ class ConcEnv:
         return os.path.join(self._tmp, name)
 
     real_path = path
+
+    def option(self, name, value):
+        pass
 
     def cleanup(self):
         import shutil
